@@ -1,4 +1,5 @@
 import PttVerif.Common
+import PttVerif.Gen.Lock
 /-
 C14 — concurrent appends to one record file (cmsys/record.go AppendRecord, cmsys/lock.go GoFlock/GoFunlock,
 lockFD/unlockFD).  A labelled transition system over atomic steps; every step is one syscall or one
@@ -10,6 +11,10 @@ mutex-protected section of the source:
   write       (file.Seek(idx*size); BinaryWrite: the record lands at idx)
   funlock     (syscall.Flock(fd, LOCK_UN))
   unlockFD    (delete(lockFDMap, filename)); the call returns idx+1
+  failStep    (the kernel lock call returns an error instead: EWOULDBLOCK of GoFlockExNb while another open
+               file description holds the flock, EINTR, ENOLCK) — possible whenever a thread is at flock
+  lockFailed  (what the lock function does with the table key before it returns that error: `cl` = it
+               removes the key again, read from the source — Gen/Lock.lean)
 
 Threads are natural numbers (so: any number of them), `proc t` is the server process a thread belongs to;
 the lock table is per process, the flock holder is global (kernel).  The file is a list of records, each
@@ -26,7 +31,8 @@ inductive PC where
   | written (idx : Nat)
   | unlocked (idx : Nat)
   | doneOk (idx : Nat)      -- returned index idx+1
-  | doneErr                 -- returned ErrPttLock
+  | doneErr                 -- returned ErrPttLock (or the kernel's error)
+  | lockFailed              -- the kernel lock call has returned an error, the lock function has not yet returned
   deriving DecidableEq, Repr, Inhabited
 
 structure Sys where
@@ -44,7 +50,7 @@ def setPc (s : Sys) (t : Nat) (p : PC) : Nat → PC := fun u => if u = t then p 
 def setTable (s : Sys) (q : Nat) (b : Bool) : Nat → Bool := fun r => if r = q then b else s.table r
 
 /-- one atomic step of thread `t`; `none` when `t` has no enabled step (finished, or blocked in flock). -/
-def step (proc : Nat → Nat) (s : Sys) (t : Nat) : Option Sys :=
+def step (proc : Nat → Nat) (cl : Bool) (s : Sys) (t : Nat) : Option Sys :=
   match s.pc t with
   | .start =>
       if s.table (proc t) then some { s with pc := setPc s t .doneErr }
@@ -57,17 +63,37 @@ def step (proc : Nat → Nat) (s : Sys) (t : Nat) : Option Sys :=
   | .seeked i => some { s with pc := setPc s t (.written i), recs := writeRec s.recs i t }
   | .written i => some { s with pc := setPc s t (.unlocked i), holder := none }
   | .unlocked i => some { s with pc := setPc s t (.doneOk i), table := setTable s (proc t) false }
+  | .lockFailed =>
+      if cl then some { s with pc := setPc s t .doneErr, table := setTable s (proc t) false }
+      else some { s with pc := setPc s t .doneErr }
   | .doneOk _ => none
   | .doneErr => none
+
+/-- the kernel lock call of thread `t` fails (for whatever reason) instead of succeeding or blocking. -/
+def failStep (s : Sys) (t : Nat) : Option Sys :=
+  match s.pc t with
+  | .wantFlock => some { s with pc := setPc s t .lockFailed }
+  | _ => none
+
+/-- every lock function takes the key out of the table again when the kernel lock is not obtained. -/
+def cleanupOf (fns : List (String × String)) : Bool :=
+  !fns.isEmpty && fns.all (fun f => f.2 == "cleanup")
+
+def sourceCleansUp : Bool := cleanupOf Gen.Lock.lockFns
+
+/-- every function that takes a lock registers the unlock with `defer` before it can return. -/
+def usersDeferOf (users : List (String × String)) : Bool :=
+  !users.isEmpty && users.all (fun f => f.2 == "deferred")
 
 /-- initial system: every thread about to call AppendRecord, nothing locked, `n0` old records. -/
 def init (n0 : Nat) : Sys :=
   { pc := fun _ => .start, table := fun _ => false, holder := none, recs := List.replicate n0 none }
 
 /-- reachable by some interleaving of atomic steps. -/
-inductive Reachable (proc : Nat → Nat) (n0 : Nat) : Sys → Prop where
-  | init : Reachable proc n0 (init n0)
-  | step {s s' : Sys} (t : Nat) : Reachable proc n0 s → step proc s t = some s' → Reachable proc n0 s'
+inductive Reachable (proc : Nat → Nat) (cl : Bool) (n0 : Nat) : Sys → Prop where
+  | init : Reachable proc cl n0 (init n0)
+  | step {s s' : Sys} (t : Nat) : Reachable proc cl n0 s → step proc cl s t = some s' → Reachable proc cl n0 s'
+  | fail {s s' : Sys} (t : Nat) : Reachable proc cl n0 s → failStep s t = some s' → Reachable proc cl n0 s'
 
 /-! ### the schedule-level semantics the harness drives (hook points of the `verif` build)
 
@@ -84,41 +110,62 @@ structure Sched where
   atOpen : Nat → Bool          -- has been started (is at or past afterOpen)
   blocked : Nat → Bool         -- released into seg 1, waiting inside flock
 
-def wake (proc : Nat → Nat) (nThreads : Nat) (sc : Sched) : Sched :=
+def wake (proc : Nat → Nat) (cl : Bool) (nThreads : Nat) (sc : Sched) : Sched :=
   match sc.sys.holder with
   | some _ => sc
   | none =>
     match (List.range nThreads).find? (fun u => sc.blocked u) with
     | none => sc
     | some u =>
-      match step proc sc.sys u with
+      match step proc cl sc.sys u with
       | some s' => { sc with sys := s', blocked := fun v => if v = u then false else sc.blocked v }
       | none => sc
 
-def release (proc : Nat → Nat) (nThreads : Nat) (sc : Sched) (t : Nat) : Sched :=
-  if !sc.atOpen t then { sc with atOpen := fun u => if u = t then true else sc.atOpen u }
+/-- a contended `GoFlockExNb` call by a fresh thread `t` (ids from 100 up): lockFD, then — the flock being
+held by somebody — the kernel answers EWOULDBLOCK and the function returns. A try while nobody holds the
+flock is not driven (no-op). -/
+def tryLock (proc : Nat → Nat) (cl : Bool) (sc : Sched) (t : Nat) : Sched :=
+  match sc.sys.pc t with
+  | .start =>
+      match sc.sys.holder with
+      | none => sc
+      | some _ =>
+        match step proc cl sc.sys t with         -- lockFD
+        | none => sc
+        | some s1 =>
+          match failStep s1 t with               -- flock(LOCK_NB) = EWOULDBLOCK
+          | none => { sc with sys := s1 }        -- lockFD already failed
+          | some s2 =>
+            match step proc cl s2 t with         -- what the lock function does before returning the error
+            | some s3 => { sc with sys := s3 }
+            | none => { sc with sys := s2 }
+  | _ => sc
+
+def release (proc : Nat → Nat) (cl : Bool) (nThreads : Nat) (sc : Sched) (t : Nat) : Sched :=
+  if 100 ≤ t then tryLock proc cl sc t
+  else if !sc.atOpen t then { sc with atOpen := fun u => if u = t then true else sc.atOpen u }
   else if sc.blocked t then sc
   else match sc.sys.pc t with
     | .start =>
-        match step proc sc.sys t with          -- lockFD
+        match step proc cl sc.sys t with          -- lockFD
         | none => sc
         | some s1 =>
           match s1.pc t with
           | .doneErr => { sc with sys := s1 }
           | _ =>
-            match step proc s1 t with          -- flock
+            match step proc cl s1 t with          -- flock
             | some s2 => { sc with sys := s2 }
             | none => { sc with sys := s1, blocked := fun u => if u = t then true else sc.blocked u }
     | .haveLock | .seeked _ =>
-        match step proc sc.sys t with
+        match step proc cl sc.sys t with
         | some s1 => { sc with sys := s1 }
         | none => sc
     | .written _ =>
-        match step proc sc.sys t with          -- funlock
+        match step proc cl sc.sys t with          -- funlock
         | none => sc
         | some s1 =>
-          match step proc s1 t with            -- unlockFD, return
-          | some s2 => wake proc nThreads { sc with sys := s2 }
+          match step proc cl s1 t with            -- unlockFD, return
+          | some s2 => wake proc cl nThreads { sc with sys := s2 }
           | none => sc
     | _ => sc
 
@@ -131,18 +178,23 @@ def showPC : PC → String
   | .unlocked _ => "unlocked"
   | .doneOk i => s!"ok:{i + 1}"
   | .doneErr => "err"
+  | .lockFailed => "lockfailed"
 
 def showRec : Option Nat → String
   | none => "_"
   | some t => toString t
 
 /-- run a schedule from `n0` old records; answer: every thread's state, then the file's writer list. -/
-def runSchedule (procs : List Nat) (n0 : Nat) (sched : List Nat) : String :=
-  let proc := fun t => procs.getD t 0
+def procOf (procs : List Nat) (t : Nat) : Nat := if 100 ≤ t then (t - 100) % 10 else procs.getD t 0
+
+def runSchedule (cl : Bool) (procs : List Nat) (n0 : Nat) (sched : List Nat) : String :=
+  let proc := procOf procs
   let n := procs.length
   let sc0 : Sched := { sys := init n0, atOpen := fun _ => false, blocked := fun _ => false }
-  let sc := sched.foldl (release proc n) sc0
+  let sc := sched.foldl (release proc cl n) sc0
   let pcs := (List.range n).map (fun t => showPC (sc.sys.pc t))
-  " ".intercalate pcs ++ " | " ++ ",".intercalate (sc.sys.recs.map showRec)
+  let tries := (sched.filter (100 ≤ ·)).map (fun t => showPC (sc.sys.pc t))
+  " ".intercalate pcs ++ " | " ++ ",".intercalate (sc.sys.recs.map showRec) ++
+    (if tries.isEmpty then "" else " | " ++ " ".intercalate tries)
 
 end PttVerif.C14
